@@ -8,6 +8,7 @@ from ..rules import decide_states, pure_params, Must, call_matcher, fmt_trace
 from .c07 import nograd_eval
 
 ID = "C03"
+ANCHORS = 'predict.predict'.split(",")
 MIN_INSTANCES = 9
 EXPLANATION = (
     "R-ARGWIN: in predict's batch loop the slice applied to X and the slice applied to every element of args are the "
